@@ -37,6 +37,11 @@ fn exec_sem<'a, const P: u128>(b: &'a SemanticSddBuilder<'a, P>, ops: &[Op]) -> 
             _ => panic!("operation not available on the semantic SDD builder"),
         };
         pool.push(r);
+        // the statistics accessor is a query: calling it in the middle of a history must not
+        // change any later result, hash or equality
+        if pool.len() % 3 == 2 {
+            let _ = b.stats();
+        }
     }
     pool
 }
